@@ -498,6 +498,31 @@ func convertStream(w *World, seed uint64, n int, out io.Writer) int {
 					}
 				}
 			}
+			// the imported applications keep their operator and their consensus key to themselves: a new applicant with the
+			// consensus key of imported application 3, the operator of imported application 3 with a fresh key, and a new
+			// applicant with the key of genesis validator 0 are all refused on the imported chain
+			{
+				mk := func(op, key int) Tx {
+					return Tx{Signer: op, Msgs: []Msg{{Kind: "CREATE", Args: []string{itoa(op), itoa(key), "4", "1", "2", "3", "4", "200000000000000000", "500000000000000000", "100000000000000000", "1"}}}}
+				}
+				o3 := node2.ExecBlock(Block{DtNs: 1_000_000_000, Txs: []Tx{mk(6, 3), mk(3, 7), mk(7, 0)}}, nil)
+				what := []string{"the consensus key of an imported application", "the operator of an imported application", "the consensus key of a validator"}
+				for i, t := range o3.Txs {
+					if t.Code == 0 {
+						bad++
+						fmt.Fprintf(out, "CONVBAD after genesis import an application with %s was accepted\n", what[i])
+					}
+				}
+				if len(o3.Txs) != 3 {
+					bad++
+					fmt.Fprintf(out, "CONVBAD after genesis import: block failed %s\n", o3.HaltMsg)
+				}
+				b2, _ := node2.App.POAKeeper.GetPendingValidators(node2.Ctx())
+				if len(b2.Validators) != 3 {
+					bad++
+					fmt.Fprintf(out, "CONVBAD after genesis import: refused applications changed the pending list (%d entries)\n", len(b2.Validators))
+				}
+			}
 			// the per-block limit works from the imported chain's total power (12): +1 is 8 %, +4 is 33 %
 			o2 := node2.ExecBlock(Block{DtNs: 1_000_000_000, Txs: []Tx{
 				{Signer: -1, Msgs: []Msg{{Kind: "SETPOWER", Args: []string{"0", "6000000", "0"}}}},
